@@ -59,6 +59,12 @@ CHECKS = {
    technique="deterministic simulation: full chain incl. dns64 + real resolver; faults placed separately on the AAAA leg and the A leg; independent RFC 6052 embed/extract + zone model as oracle",
    text="Seeded search over DNS64 configurations (prefixes of every legal and some illegal lengths, well-known prefix with its excluded ranges, client networks, excluded zones), zones with A-only/AAAA-only/both/excluded-AAAA/alias chains/absent names, signed or not, leg faults (silent, SERVFAIL, REFUSED, corrupted signatures), tiny budgets and RD/CD/DO/AD/eligibility mixes plus ip6.arpa PTR questions for synthesised addresses. Synthesised AAAA must be exactly the RFC 6052 embedding of the final name's usable A records, reversible, correctly owned, TTL-bounded, only when allowed, never over NXDOMAIN / validation failure / cached failure, never with AD.",
    note="RFC 6147 lets a DNS64 treat non-NXDOMAIN failure rcodes as an empty answer, so synthesis over a plain upstream SERVFAIL/REFUSED/timeout is not flagged. The embedding bijection is sampled, not enumerated."),
+
+ "C18": dict(
+   level="exploration", design="§3 C18",
+   technique="deterministic simulation: full chain over simulated network for matching/replies; BlockList API tasks under a seeded cooperative scheduler with a simulated disk injecting errors and crashes; porcupine linearizability of the API; reference matcher over label lists",
+   text="Seeded search over lists (parents/children/wildcards/whitelist/case/escaped dots), a sequential script of API calls and client queries through the whole middleware chain (reply, no upstream packet, no cache effect), and a concurrent script (tasks x schedule x disk fault plan). After every run the persisted local list is compared with the memory states the critical sections left behind (read through the scheduler's lock-release hook), and a fresh BlockList is loaded from the surviving directory. Sampling, not proof.",
+   note="Trusts: the verifsync/verifos shims, simdisk's crash model (lose/keep/torn), porcupine, and the reference matcher. The HTTP API layer is bypassed (BlockList methods called directly). The entries '.' and '*.' are not generated."),
 }
 
 NOT_APPLICABLE = {
